@@ -244,6 +244,16 @@ class WrappedField:
         return element_type
 
     @cached_property
+    def has_optional_elements(self) -> bool:
+        """
+        :return: True for a container whose elements may be missing (List[Optional[X]]).
+        """
+        if not self.is_container:
+            return False
+        element_types = get_args(self.type_without_optional)
+        return bool(element_types) and self._is_optional_type(element_types[0])
+
+    @cached_property
     def is_type_type(self) -> bool:
         # also behind an Optional: Optional[Type[X]]
         return get_origin(self.type_without_optional) is type
